@@ -93,3 +93,18 @@ Theorem operands_unchanged :
     store (exec C (s_body s) wr sched 0 (start C sto)) (ABuf a f) = sto (ABuf a f).
 Proof. exact operands_unchanged_proof. Qed.
 Print Assumptions operands_unchanged.
+
+(* The explicit out= target (exempt by the property's wording): _make_shallow_copy_of re-binds the
+   attributes of exactly one object — the target — to those of the computed result; every other
+   object keeps its attributes (and no buffer is written: the swap is a Bind-free attribute store,
+   see the summaries of __array_ufunc__).  The second statement is about the source as it is now. *)
+Theorem out_swap_only_target :
+  forall (D : Type) (h : oheap D) (self other : nat),
+    shallow_copy_of D h self other self = h other
+    /\ forall i, i <> self -> shallow_copy_of D h self other i = h i.
+Proof. exact out_swap_only_target_proof. Qed.
+Print Assumptions out_swap_only_target.
+
+Theorem out_protocol_shape : (shallow_copy_is_dict_swap && ufunc_swaps_only_out)%bool = true.
+Proof. exact out_protocol_shape_proof. Qed.
+Print Assumptions out_protocol_shape.
